@@ -82,6 +82,11 @@ def main():
                     raise_in_player[0] = True
                 if b == 'exit':
                     os._exit(3)
+                if b == 'exit0':
+                    os._exit(0)           # replayed code ends the process "successfully" (sys.exit() in a CLI-style operation)
+                if b == 'die_holding_event_lock':
+                    # this worker will be lost (OOM kill) exactly while it holds the lock of the terminate event it polls when idle
+                    open(event_lock_flag, 'w').close()
                 if b == 'hang':
                     if hang_flag:
                         open(hang_flag, 'w').close()
@@ -135,6 +140,24 @@ def main():
 
     raise_in_player = [False]
     leaked_cassettes = []
+    import tempfile as _tempfile
+    event_lock_flag = _tempfile.mktemp(prefix='vp-eq-evlock-')
+    if 'die_holding_event_lock' in case['behaviours']:
+        import multiprocessing.synchronize as _mps
+        import signal as _sig
+        _parent_pid = os.getpid()
+        _orig_is_set = _mps.Event.is_set
+
+        def _is_set(self):
+            if os.getpid() != _parent_pid and os.path.exists(event_lock_flag):
+                self._cond.acquire()                 # (what is_set() itself takes for an instant)
+                try:
+                    os.remove(event_lock_flag)
+                except OSError:
+                    pass
+                os.kill(os.getpid(), _sig.SIGKILL)
+            return _orig_is_set(self)
+        _mps.Event.is_set = _is_set
     ids = []
     for i, b in enumerate(case['behaviours']):
         current.clear()
@@ -225,11 +248,12 @@ def main():
     orig_kill = Equalizer._kill_compare_process
     late_waits = []
     doomed = []
+    idx_offset = [0]
 
     def kill(self):
         # injected delay at an existing suspension point: when the current recording is scripted "late", the kill lands only
         # after the worker's answer is in the pipe (an OS scheduling delay the parent cannot exclude)
-        idx = len(results)
+        idx = len(results) + idx_offset[0]
         if idx < len(case['behaviours']) and case['behaviours'][idx] == 'late':
             t0 = time.monotonic()
             q = self._compare_results
@@ -286,6 +310,10 @@ def main():
         neighbour.compare_execution_config.compare_process_recycle_rate = 1
         eq = Equalizer(iter(ids), player, result_extractor, comparator)
         run_comparison = eq.run_comparison
+    elif case.get('int_ids'):
+        # the caller identifies its recordings by position (0, 1, 2 ...) and maps them to stored recordings in its own player
+        eq = Equalizer(iter(range(len(ids))), (lambda i: player(ids[i])), result_extractor, comparator, compare_execution_config=cfg)
+        run_comparison = eq.run_comparison
     else:
         eq = Equalizer(iter(ids), player, result_extractor, comparator, compare_execution_config=cfg)
         run_comparison = eq.run_comparison
@@ -307,6 +335,15 @@ def main():
         except BaseException as ex:  # noqa
             companion_error = 'first:' + repr(ex)
     gen = run_comparison()
+    suspended_first_run = None
+    if case.get('second_run_while_first_suspended'):
+        # one comparison is taken from a first run of this equalizer; while that run is suspended a second run of the SAME equalizer is
+        # started (it goes on with the remaining ids) and is the one that is consumed and judged; the first one is closed at the end
+        suspended_first_run = gen
+        first = next(suspended_first_run)
+        ids = ids[1:]
+        idx_offset[0] = 1
+        gen = run_comparison()
     if case.get('consume_in_fork'):
         # the comparison is prepared in one process and consumed in a process forked from it (one forked consumer per category)
         sys.stdout.flush()
@@ -350,7 +387,7 @@ def main():
                 'playback_token': (next((o.value['args'][0] for o in pb.recorded_outputs if 'eq.write' in o.key), None) if pb is not None else None),
             })
             k += 1
-            if case['behaviours'][k - 1] == 'die_idle' and case['dedicated']:
+            if case['behaviours'][k - 1 + idx_offset[0]] == 'die_idle' and case['dedicated']:
                 time.sleep(0.9)          # the consumer is busy while the idle worker dies
             if consume != 'full' and k >= consume[1]:
                 if consume[0] == 'close':
@@ -367,6 +404,12 @@ def main():
     except BaseException as ex:  # noqa
         error = 'run:' + repr(ex)
     t_end = time.monotonic() - t_start
+    if suspended_first_run is not None:
+        try:
+            suspended_first_run.close()
+        except BaseException as ex:  # noqa
+            error = (error or '') + ' closing the first run:' + repr(ex)
+        suspended_first_run = first = None
     if companion is not None and companion_error is None:
         try:
             for comp2 in companion:
@@ -400,6 +443,11 @@ def main():
             os.kill(p, 9)
         except OSError:
             pass
+    if case.get('int_ids'):
+        for r in results:
+            if r['playback_recording_id'] in ids:
+                r['playback_recording_id'] = ids.index(r['playback_recording_id'])
+        ids = list(range(len(ids)))
     print(json.dumps({'ids': ids, 'results': results, 'stamps': stamps, 'error': error, 'finished': finished, 'total_s': t_end,
                       'pids': pids, 'task_pid': task_pid, 'survivors': survivors, 'gone_after': gone_after, 'calib_s': calib,
                       'late_waits': late_waits, 'companion': {'expected': companion_expected, 'got': companion_got, 'error': companion_error}}, default=str))
